@@ -309,7 +309,8 @@ def deep_compare(obj1: Any,
                         return -1
 
                     elif isinstance(value1, UntypedAtomic):
-                        if isinstance(value2, UntypedAtomic):
+                        # xs:untypedAtomic values are compared as strings
+                        if isinstance(value2, (str, AnyURI, UntypedAtomic)):
                             result = cm.strcoll(str(value1), str(value2))
                             if result:
                                 return result
@@ -318,8 +319,13 @@ def deep_compare(obj1: Any,
                             raise xpath_error('XPTY0004', msg, token)
 
                     elif isinstance(value2, UntypedAtomic):
-                        msg = msg_tmpl.format(value1, value2)
-                        raise xpath_error('XPTY0004', msg, token)
+                        if isinstance(value1, (str, AnyURI)):
+                            result = cm.strcoll(str(value1), str(value2))
+                            if result:
+                                return result
+                        else:
+                            msg = msg_tmpl.format(value1, value2)
+                            raise xpath_error('XPTY0004', msg, token)
 
                     elif isinstance(value1, float):
                         if math.isnan(value1):
@@ -332,14 +338,14 @@ def deep_compare(obj1: Any,
                         elif isinstance(value2, Decimal):
                             if value1 != float(value2):
                                 return -1 if value1 < float(value2) else 1
-                        elif not isinstance(value2, (value1.__class__, int)):
+                        elif not isinstance(value2, (float, int)):
                             return -1
                         elif value1 != value2:
                             return -1 if value1 < value2 else 1
 
                     elif isinstance(value2, float):
                         if math.isnan(value2):
-                            return -1
+                            return 1  # NaN precedes any other value
                         elif math.isinf(value2):
                             if value1 != value2:
                                 return -1 if value1 < value2 else 1
